@@ -407,6 +407,39 @@ func runC20(c *Ctx) {
 				edgeOK = true
 			}
 			if !edgeOK {
+				// an early find decided by a helper: the edge is the true/false edge of a repo function's boolean result,
+				// the function was handed (part of) this page and looks at its elements (not only at its length)
+				if iff, ok := from.Instrs[len(from.Instrs)-1].(*ssa.If); ok {
+					cond := ssa.Value(iff.Cond)
+					if u, ok := cond.(*ssa.UnOp); ok && u.Op == token.NOT {
+						cond = u.X
+					}
+					if hc, ok := cond.(*ssa.Call); ok {
+						if g := hc.Call.StaticCallee(); g != nil && load.FuncInRepo(g) && g.Blocks != nil {
+							lsl := flow.NewSlicer(c.P)
+							for ai, a := range hc.Call.Args {
+								if ai >= len(g.Params) || !lsl.Derives(a, respVal) {
+									continue
+								}
+								if _, isSlice := a.Type().Underlying().(*types.Slice); !isSlice {
+									continue
+								}
+								for _, gb := range g.Blocks {
+									for _, gi := range gb.Instrs {
+										if ia, ok := gi.(*ssa.IndexAddr); ok && ia.X == ssa.Value(g.Params[ai]) {
+											edgeOK = true
+										}
+										if rg, ok := gi.(*ssa.Range); ok && rg.X == ssa.Value(g.Params[ai]) {
+											edgeOK = true
+										}
+									}
+								}
+							}
+						}
+					}
+				}
+			}
+			if !edgeOK {
 				okExit = false
 				why = "exit at " + c.pos(lastPos(from))
 			}
@@ -658,7 +691,21 @@ func runC20(c *Ctx) {
 		name := load.FuncName(f)
 		const bEnabled uint = 0
 		r := &esp.Rule{Name: "C20.R3"}
-		r.Relevant = func(*ssa.Function) bool { return false }
+		// a same-package helper that is not itself a poller and makes the observation (one fetch, classified by state) is
+		// followed into: its "ready" result stays correlated with the ENABLED test it made
+		r.Relevant = func(g *ssa.Function) bool {
+			if g == nil || g.Blocks == nil || pollers[g] || load.RelPkg(g) != "keys/gcpkms" || c.isTestFunc(g) {
+				return false
+			}
+			for _, b := range g.Blocks {
+				for _, in := range b.Instrs {
+					if call, ok := in.(*ssa.Call); ok && (isKMSClientCall(call, "GetCryptoKeyVersion") || isKMSClientCall(call, "CreateCryptoKeyVersion")) {
+						return true
+					}
+				}
+			}
+			return false
+		}
 		r.Match = func(in ssa.Instruction) []esp.Ev {
 			switch v := in.(type) {
 			case *ssa.BinOp:
@@ -696,6 +743,9 @@ func runC20(c *Ctx) {
 			return s, ""
 		}
 		r.AtReturn = func(x *esp.Ctx, s esp.State, rets []esp.Abs) string {
+			if x.Fn != f {
+				return ""
+			}
 			if rets[1] != esp.NonZero && !s.Has(bEnabled) {
 				return "R3: " + name + " may return a key version without having observed it ENABLED"
 			}
